@@ -33,7 +33,7 @@ type Harness struct {
 }
 
 func (h *Harness) explanation() string {
-	return "Exhaustive over the crash points of each workload: the harness installs a vhook callback that copies the data directory at EVERY vhook.Point hit (all point names x all hit counts) of the workloads {extend, save, abort-by-new-block (save paused after its first 64 KiB chunk, aborted by CommitBlockTxs, later one hurried), reorg-after-save, reorg-save-extend, reorg-before-any-save, seeded generated histories (canonical schedule, compared with the model), free-running variants, and an adversarial schedule holding block writes back while a snapshot is being written}; each copy is re-opened by a fresh process (client mode: NewChainExt(DoNotRescan) + do_the_blocks/LocalAcceptBlock loop; library mode: NewChainExt default) and must give: no panic, a tip the node knew, UTXO dump == independent replay of that tip's chain, final (tip, dump) after feeding the remaining blocks == the uninterrupted run, and the same again after a clean close + re-open. Plus every record-boundary (and mid-record) truncation of blockchain.new and prefix truncations of blockchain.dat after a clean close. The Lean model (Model/Persist.lean) is tied by (a) point-name sequence == labels of the model's effect list, (b) recovered/final (tip, coin set) at every crash point == model's recover(apply(take k effects))."
+	return "Second-crash cases (crash at a blockdb.write:dat-written / idx-written point or with the index cut by one record -> fresh process recovers like the client, is fed every block with snapshots disabled, flushes -> second crash at each idx-written point and after Idle; thorough: at every point for the first data-written hit of each scripted workload -> third fresh process re-opens and is judged by the same predicate; not compared with the model). The known finding undo-file-keyed-by-height is only assigned when the captured directory really holds an undo/<h> file naming another block than the re-opened chain's block at h (a missing undo file or any other failure off-branch is reported under its own key). Exhaustive over the crash points of each workload: the harness installs a vhook callback that copies the data directory at EVERY vhook.Point hit (all point names x all hit counts) of the workloads {extend, save, abort-by-new-block (save paused after its first 64 KiB chunk, aborted by CommitBlockTxs, later one hurried), reorg-after-save, reorg-save-extend, reorg-before-any-save, seeded generated histories (canonical schedule, compared with the model), free-running variants, and an adversarial schedule holding block writes back while a snapshot is being written}; each copy is re-opened by a fresh process (client mode: NewChainExt(DoNotRescan) + do_the_blocks/LocalAcceptBlock loop; library mode: NewChainExt default) and must give: no panic, a tip the node knew, UTXO dump == independent replay of that tip's chain, final (tip, dump) after feeding the remaining blocks == the uninterrupted run, and the same again after a clean close + re-open. Plus every record-boundary (and mid-record) truncation of blockchain.new and prefix truncations of blockchain.dat after a clean close. The Lean model (Model/Persist.lean) is tied by (a) point-name sequence == labels of the model's effect list, (b) recovered/final (tip, coin set) at every crash point == model's recover(apply(take k effects))."
 }
 
 func (h *Harness) run() {
@@ -321,6 +321,7 @@ func (h *Harness) judge2(w Workload, wr *WlRun, ht Hit, mode string, c *ChildRes
 type s2case struct {
 	hit   Hit
 	trunc bool   // the index lost its last record before the first restart (truncated-index-then-continue)
+	all   bool   // the second crash is taken at EVERY point the continuing process reaches
 	dir   string // private copy of the first capture
 	res   *ChildRes
 }
@@ -352,11 +353,12 @@ func (h *Harness) stage2Select(w Workload, wr *WlRun, only int, onlySecond strin
 		case "blockdb.write:idx-written":
 			idxSeen++
 			take = r.Thorough() || idxSeen == 1 || only != 0
-		case "blockdb.write:before-dat", "blockdb.write:before-publish":
-			take = r.Thorough() && only == 0
 		}
 		if take && !strings.HasPrefix(onlySecond, "t") {
 			c := &s2case{hit: ht, dir: fmt.Sprintf("%s/%04d-s2/", wr.Snaps, ht.N)}
+			if ht.Name == "blockdb.write:dat-written" && (r.Thorough() || r.Replay != "") && !strings.HasPrefix(w.Name, "gen") && (ht.Idx == 1 || only != 0) {
+				c.all = true
+			}
 			if copyTree(fmt.Sprintf("%s/%04d/", wr.Snaps, ht.N), c.dir) == nil {
 				cs = append(cs, c)
 			}
@@ -379,9 +381,6 @@ func (h *Harness) stage2Run(w Workload, wr *WlRun, blocksFile string, cs []*s2ca
 	if len(cs) == 0 {
 		return
 	}
-	if r.Thorough() {
-		os.Setenv("C07_S2_ALL", "1")
-	}
 	var wg sync.WaitGroup
 	sem := make(chan bool, 12)
 	for _, c := range cs {
@@ -389,7 +388,11 @@ func (h *Harness) stage2Run(w Workload, wr *WlRun, blocksFile string, cs []*s2ca
 		sem <- true
 		go func(c *s2case) {
 			defer wg.Done()
-			c.res = runChild("stage2", c.dir, blocksFile)
+			mode := "stage2"
+			if c.all {
+				mode = "stage2all"
+			}
+			c.res = runChild(mode, c.dir, blocksFile)
 			<-sem
 		}(c)
 	}
